@@ -77,6 +77,7 @@ type vPlan16 struct {
 	MutPerPos int      `json:"mutperpos"` // mutations per byte position of each base certificate
 	TruncStep int      `json:"truncstep"` // every n-th truncation length
 	MintEvery int      `json:"mintevery"` // every n-th ModHex case also through a minted and parsed certificate
+	Reps      int      `json:"reps"`      // how often every shape is minted (different random contents)
 	NRandMH   int      `json:"nrandmh"`   // direction B: random serial-extension values
 	Raw       []string `json:"raw"`       // replay: inputs (hex) to push through parser + extractor
 	NoB       bool     `json:"nob"`
@@ -499,9 +500,9 @@ func (x *vRun16) emit(tid string, e *vE16) {
 }
 
 // parseObs mints one shape and observes both parsers (safe for concurrent use: its own generator)
-func (x *vRun16) parseObs(ci int, c vCase16) (*vE16, bool) {
+func (x *vRun16) parseObs(ci, rep int, c vCase16) (*vE16, bool) {
 	m := *x.m
-	m.r = verifh.NewRand("attest16-shape", int64(ci))
+	m.r = verifh.NewRand("attest16-shape", int64(ci)+int64(rep)*1000003)
 	mt := m.mint(c, nil)
 	e := &vE16{vCase16: c, Src: "A", Res: newRes16()}
 	y, s, pan := parseBoth(mt.der)
@@ -521,7 +522,7 @@ func (x *vRun16) parseObs(ci int, c vCase16) (*vE16, bool) {
 	return e, c.Tail == "clean" && c.Kt != "rsa-nonull" && s == nil
 }
 
-func (x *vRun16) parseCases(cases []vCase16, idx []int) {
+func (x *vRun16) parseCases(cases []vCase16, idx []int, rep int) {
 	out := make([]*vE16, len(idx))
 	rej := make([]bool, len(idx))
 	var wg sync.WaitGroup
@@ -530,7 +531,7 @@ func (x *vRun16) parseCases(cases []vCase16, idx []int) {
 		go func(w int) {
 			defer wg.Done()
 			for i := w; i < len(idx); i += 4 {
-				out[i], rej[i] = x.parseObs(idx[i], cases[idx[i]])
+				out[i], rej[i] = x.parseObs(idx[i], rep, cases[idx[i]])
 			}
 		}(w)
 	}
@@ -540,7 +541,7 @@ func (x *vRun16) parseCases(cases []vCase16, idx []int) {
 			x.st.StdRej++
 		}
 		x.st.Parse++
-		x.emit(fmt.Sprintf("p%d", idx[i]), e)
+		x.emit(fmt.Sprintf("p%d-%d", idx[i], rep), e)
 	}
 }
 
@@ -732,7 +733,9 @@ func TestVerifAttest16(t *testing.T) {
 			pidx = append(pidx, ci)
 		}
 	}
-	x.parseCases(all16, pidx)
+	for rep := 0; rep < plan.Reps || rep == 0; rep++ {
+		x.parseCases(all16, pidx, rep)
+	}
 	for ci, c := range all16 {
 		switch c.Op {
 		case "pem":
